@@ -2,7 +2,7 @@
 # tools/verify_seeded.sh <dir-with-patch.diff-and-demo.rs> <name>
 # In the scratch worktree of the lab: (1) pinned suite passes WITH the change, (2) the demonstration
 # FAILS with the change, (3) the demonstration PASSES without it. Prints a three-line verdict.
-D="$1"; N="$2"; LAB=/tmp/mutlab/repo
+D="$1"; N="$2"; LAB=${LABREPO:-/tmp/mutlab/repo}
 cd "$LAB" || exit 2
 git checkout -q -- . ; git clean -fdq tests examples
 cp "$D/demo.rs" "tests/demo_$N.rs" || exit 2
